@@ -111,6 +111,36 @@ def check_bad(row, kind, value):
               f"type-enforcement/{row['type']}/{kind}/accepted", f"{row['cls']}({value!r}) built; dump()={d.hex()[:64]}")]
 
 
+def check_bad_decode(row, kind, value):
+    """the same out-of-domain data arriving on the wire under the class's (vendor, code), with the M and P bits in every
+    combination, alone, inside a message and as a member of a Grouped AVP: decoding either fails or yields an instance of the
+    dictionary class - a known pair is never handed back as an unvalidated generic AVP carrying the illegal value"""
+    from bromelia.base import DiameterAVP, DiameterMessage
+    cls = refdict.cls_obj(row["cls"])
+    errors = common.lib_errors()
+    vs = []
+    vbit = 0x80 if row["vendor"] is not None else 0
+    for fl in (row["flags"], vbit, vbit | 0x40, vbit | 0x20, vbit | 0x60):
+        wire = rc.enc_avp(row["code"], fl, row["vendor"], value)
+        forms = [("avp", lambda w=wire: DiameterAVP.load(w)),
+                 ("message", lambda w=wire: DiameterMessage.load(rc.enc_msg(1, 0x80, 316, 16777251, 1, 2, [w]))[0].avps),
+                 ("member", lambda w=wire: DiameterAVP.load(rc.enc_avp(279, 0x40, None, w))[0].avps)]
+        for form, f in forms:
+            try:
+                got = list(f())
+            except (Exception,) + errors:
+                continue
+            bad = [a for a in got if a.code == struct.pack(">I", row["code"]) and not isinstance(a, cls)]
+            if bad:
+                vs.append(V("decoding dispatches each (vendor, code) to its class, which enforces the declared type",
+                            f"decode-out-of-domain/{row['type']}/kept-as-{type(bad[0]).__name__}/M={'set' if fl & 0x40 else 'clear'}/{form}",
+                            f"{row['cls']} data {value.hex()[:40]} flags {fl:#04x}: decoded to {type(bad[0]).__name__}"))
+                break
+        if vs:
+            break
+    return vs
+
+
 AWARE_OFFSETS = [0, 330, -180, 840, -720, 60]        # minutes east of UTC
 AWARE_INSTANTS = [(2020, 6, 1, 12, 0, 0), (1970, 1, 1, 0, 0, 0), (2001, 9, 9, 1, 46, 40), (1999, 12, 31, 23, 59, 59)]
 
@@ -327,7 +357,7 @@ def run_case(case):
     if k == "bad":
         row = refdict.by_cls(case["cls"])
         val = dict(bad_values(row)).get(case["value_kind"])
-        return check_bad(row, case["value_kind"], val)
+        return check_bad(row, case["value_kind"], val) + (check_bad_decode(row, case["value_kind"], val) if isinstance(val, bytes) else [])
     if k == "missing-mandatory":
         return check_mandatory_missing(refdict.by_cls(case["cls"]))
     if k == "aware":
@@ -346,7 +376,10 @@ def _collect(shard, seed, n_in, of):
             continue
         for kind, val in bad_values(row):
             case = {"kind": "bad", "cls": row["cls"], "value_kind": kind, "value_repr": repr(val)[:60]}
-            col.record(case, check_bad(row, kind, val), nontrivial=True, classes=["out-of-domain", "type=" + row["type"]])
+            vs = check_bad(row, kind, val)
+            if isinstance(val, bytes):
+                vs = vs + check_bad_decode(row, kind, val)
+            col.record(case, vs, nontrivial=True, classes=["out-of-domain", "type=" + row["type"]] + (["out-of-domain-on-the-wire"] if isinstance(val, bytes) else []))
         if row["type"] == "Time":
             for off in AWARE_OFFSETS:
                 for wall in AWARE_INSTANTS:
@@ -378,7 +411,7 @@ def main(ctx):
     col.extra["exhaustive_parts"] = "uniqueness of (vendor, code) over all subclasses; published identity of every class vs vendored dictionary, docs/list-of-avps.md, definitions.py; out-of-domain table per class"
     for path, rec in common.load_replays(PID):
         col.record(rec["case"], run_case(rec["case"]), nontrivial=True, classes=["replay"])
-    ctx.required_classes = ["out-of-domain", "in-domain", "missing-mandatory", "tables", "aware-datetime"] + ["type=" + t for t in TYPE_NAMES]
+    ctx.required_classes = ["out-of-domain", "out-of-domain-on-the-wire", "in-domain", "missing-mandatory", "tables", "aware-datetime"] + ["type=" + t for t in TYPE_NAMES]
     ctx.assumptions = ["domains per data type as tabled in DESIGN C10 / bad_values(); ints for Address and bools are not judged; "
                        "Address families other than 1/2 are not judged; IPFilterRule is accepted as OctetString"]
     return col
